@@ -21,7 +21,7 @@ RULE = (
 )
 ASSUMPTIONS = [
     "UNKNOWN-typed reactions are not mixed with typed ones (equality with a wildcard is not transitive, so 'class' is undefined there)",
-    "one spelling convention per list, as the docstring of find_duplicate_reaction requires for string modes",
+    "string modes ('minimal', 'short'): one spelling convention per list, as the docstring of find_duplicate_reaction requires; the object-based modes (None, 'brief') also get lists that spell the electron both ways (e- / E), as merged databases do",
 ]
 MODES = [None, "brief", "minimal", "short"]
 NAMES = ["H", "H2", "H+", "H-", "e-", "C", "C+", "CH", "O", "OH", "H2O", "CO", "He", "He+", "H2+", "H3+", "Si", "S", "SiO", "oH2", "#H", "#CO", "#H2O", "#H2", "D"]
